@@ -837,6 +837,22 @@ class Spec:
                 for a in [a for q in cl.chain() for a in q.plan.acts()]:
                     stats["act_" + a[0]] = stats.get("act_" + a[0], 0) + 1
             errs = [e for e in errs if e[0] != "baseline"] or errs
+            if errs and c.mode.endswith("-thr"):
+                # internal-thread modes are paced by wall-clock sleeps in the harness: on a loaded machine a round can be
+                # cut short.  A rejected threaded case is re-run alone (case + its baseline); it is reported only if it
+                # is rejected every time.  Both counters are part of the coverage, so flakiness stays visible.
+                stats["thr_rejected_first_run"] = stats.get("thr_rejected_first_run", 0) + 1
+                for _ in range(3):
+                    again = self.run_harness([b, c], failures)
+                    hl2, bl2 = again.get(c.name), again.get(b.name)
+                    if hl2 is None or bl2 is None:
+                        break
+                    errs2, hv2, bv2 = judge(c, hl2, bl2)
+                    errs2 = [e for e in errs2 if e[0] != "baseline"] or errs2
+                    if not errs2:
+                        errs, hl, bl, hv, bv = [], hl2, bl2, hv2, bv2
+                        stats["thr_recovered_on_rerun"] = stats.get("thr_recovered_on_rerun", 0) + 1
+                        break
             if errs:
                 kind, det = errs[0]
                 failures.append(vlib.Failure("oracle", "susp/%s: %s" % (kind, _sig(det)), "; ".join(e[1] for e in errs[:4]),
